@@ -239,6 +239,8 @@ pub struct Model<'a> {
     last_simple: Option<(StmtId, u32, bool)>,
     /// header line of the block statement whose failure is being handled
     header_part: Option<usize>,
+    /// the unhandled error that ends the program was raised by this header line
+    abort_header_part: Option<(StmtId, usize)>,
 }
 
 const STEP_CAP: u64 = 20_000;
@@ -318,6 +320,7 @@ impl<'a> Model<'a> {
             pending_errors_used: HashMap::new(),
             last_simple: None,
             header_part: None,
+            abort_header_part: None,
         }
     }
 
@@ -627,6 +630,13 @@ impl<'a> Model<'a> {
                 return Some(*h);
             }
         }
+        if let Some((id, k)) = self.abort_header_part {
+            if id == stmt {
+                if let Some(h) = self.em.header_spans.get(&(stmt, k)) {
+                    return Some(*h);
+                }
+            }
+        }
         self.em
             .spans
             .iter()
@@ -662,7 +672,13 @@ impl<'a> Model<'a> {
                             self.probe("resume_next_after_block_header");
                             return Ok(HeaderVal::Enter);
                         }
-                        Recovery::Flow(f) => return Ok(HeaderVal::Flow(f)),
+                        Recovery::Flow(f) => {
+                            if let Flow::Abort(..) = f {
+                                // the report names this header line
+                                self.abort_header_part = Some((s.id, part));
+                            }
+                            return Ok(HeaderVal::Flow(f));
+                        }
                     }
                 }
                 Err(o) => return Err(o),
@@ -2380,10 +2396,20 @@ impl<'a> Model<'a> {
         // sequential writers (OUTPUT / APPEND) among themselves; a reader next to a writer
         // sees whatever its read-ahead buffer happened to hold
         let is_writer = |m: Mode| m == Mode::Output || m == Mode::Append;
+        // a reader next to an APPEND writer: the writer only adds bytes behind everything the
+        // reader may have looked at, so the reader sees the file as it is when it reads
+        // ("EOF(n) is true exactly when nothing is left")
+        let reader_and_appender = |a: Mode, b: Mode| {
+            (a == Mode::Input && b == Mode::Append) || (a == Mode::Append && b == Mode::Input)
+        };
+        if self.handles.values().any(|h| h.name == name && reader_and_appender(h.mode, mode)) {
+            self.probe("same_file_open_for_input_and_append");
+        }
         if self.handles.values().any(|h| {
             h.name == name
                 && !((h.mode == Mode::Input && mode == Mode::Input)
-                    || (is_writer(h.mode) && is_writer(mode)))
+                    || (is_writer(h.mode) && is_writer(mode))
+                    || reader_and_appender(h.mode, mode))
         }) {
             return Err(Stop::Early(
                 "OPEN of a file that is already open on another handle in an incompatible mode"
